@@ -113,6 +113,7 @@ let dispatch (fn : string) : jv -> jv = match fn with
   | "c16_getkpasswd" -> c16_getkpasswd_j
   | "client_run" -> client_run_j
   | "client_pairs" -> client_pairs_j
+  | "as_exchange" -> as_exchange_j
   | "new_as_req" -> new_as_req_j
   | "referrals" -> referrals_j
   | "cc_unmarshal" -> cc_unmarshal_j
